@@ -359,6 +359,11 @@ class Cfg:
                 for idx, e in enumerate(b['e']):
                     if isinstance(e, int):
                         m.setdefault(e, (b['id'], idx))
+            # statements that are block terminators only (continue, break, goto): located at the end of their block
+            for b in self.blocks.values():
+                t = b.get('term')
+                if t is not None and t >= 0 and self.fn.nodes[t]['k'] in ('ContinueStmt', 'BreakStmt', 'GotoStmt'):
+                    m.setdefault(t, (b['id'], len(b['e'])))
             self._node_block = m
         return self._node_block
 
